@@ -55,6 +55,10 @@ def make_event(case):
         nodes = list(objs.keep)
         for k, nd in enumerate(nodes):
             nd.id = "id%d" % (k % max(1, len(nodes) - 1))  # one duplicated id when n >= 2
+    elif case["cls"] == "expr" and len(objs) >= 2:
+        nodes = list(objs.keep)
+        nodes[0].id = ""
+        nodes[-1].id = "0"
     ev = {"typ": "visit", "cls": "expr" if case["cls"] in ("expr", "uniform") else "btn", "root": objs.of(root), "orders": {}, "via": via}
     for o, meth in ORD.items():
         calls = []
@@ -177,7 +181,7 @@ def edit_session(case):
     """look-ups on every node, an in-place edit, the same look-ups on the same objects again (twice over)"""
     from mathy_core import expressions as E
     out = []
-    for how in ("rotate", "swap", "newroot", "unlink"):
+    for how in ("rotate", "swap", "newroot", "unlink", "reattach"):
         try:
             probe = build(case)
         except BaseException:  # noqa
@@ -192,6 +196,9 @@ def edit_session(case):
             if case.get("dupids"):
                 for j, nd in enumerate(nodes):
                     nd.id = "id%d" % (j % max(1, len(nodes) - 1))
+            elif len(nodes) >= 2:
+                nodes[0].id = ""           # ids are public and free-form: an empty one and a zero-like one are ids like any other
+                nodes[-1].id = "0"
             target = _inorder(root)[k]
             steps = []
 
@@ -228,6 +235,14 @@ def edit_session(case):
                     l, r = target.left, target.right
                     target.set_left(r)
                     target.set_right(l)
+                elif how == "reattach":
+                    # the setters' optional flag at its non-default value, re-attaching the operand that is already there
+                    if target.left is None and target.right is None:
+                        continue
+                    if target.left is not None:
+                        target.set_left(target.left, clear_old_child_parent=True)
+                    if target.right is not None:
+                        target.set_right(target.right, True)
                 elif how == "newroot":
                     if k > 0:
                         continue
